@@ -1,4 +1,236 @@
-import ShootVerif.Spec.Enum
+import ShootVerif.Proofs.EnumBasic
+/-!
+C04 — for every integer type with typed constants the generated String, Values, Strings, ValueMap,
+StringMap and IsValid agree with the declaration: each declared constant maps to its name with the
+type-name prefix trimmed and back, Values() and Strings() are index-aligned and ordered by
+ascending value, IsValid is true exactly for declared values, and (without -bit) String() of any
+other value is its decimal form.  The generated file stops compiling if a declared constant's
+value is later changed without regenerating.
+
+`tables i` is what the model of str.go puts into the emitted file (`sortC (collect …)`);
+`i.decl` are the declared constants of T by the Go language rule.  All theorems: every input with
+`WF i` (any number of blocks / specs / names, any kind), every `x : Int` — in particular every
+value of the integer type — and every string.  No bound anywhere.
+-/
 namespace ShootVerif.Enum
-theorem C04_placeholder : True := trivial
+
+/-- the stringer-style loop of makeStr collects exactly the declared constants of T (grammar: no
+    spec gets type T through a typed expression) -/
+theorem C04_collect (i : Input) (h : grammarOK i = true) : collect i.T i.blocks = i.decl :=
+  collect_eq_declared _ _ (grammar_of_grammarOK h)
+
+/-- on WF the run succeeds (no `x[Name--1]`), emits the table the specification describes, and the
+    emitted map literals / table references compile -/
+theorem C04_generates (i : Input) (h : WF i = true) :
+    gen i.T i.blocks = .file (specSorted i.decl) ∧ compiles false i.T (specSorted i.decl) = true := by
+  have f := WF.facts h
+  have hp : (specSorted i.decl).Perm i.decl := sortBy_perm _ _
+  have ht : sortC (collect i.T i.blocks) = specSorted i.decl := tables_eq h
+  constructor
+  · unfold gen
+    simp only [ht]
+    have hne : (specSorted i.decl).isEmpty = false := by
+      cases hs : specSorted i.decl with
+      | nil => rw [hs] at hp; exact absurd hp.symm.eq_nil f.nonempty
+      | cons _ _ => rfl
+    have hnp : (specSorted i.decl).any (fun c => decide (printed c.val < 0)) = false := by
+      rw [List.any_eq_false]
+      intro c hc
+      have := f.small c (hp.mem_iff.mp hc)
+      rw [printed_small this.1 this.2]
+      simp [this.1]
+    simp [hne, hnp]
+  · unfold compiles
+    have h1 : (valuesT (specSorted i.decl)).Nodup := (hp.map _).nodup_iff.mpr f.ndVals
+    have h2 : (stringsT i.T (specSorted i.decl)).Nodup := (hp.map _).nodup_iff.mpr f.ndNames
+    simp only [h1, h2, decide_true, Bool.true_and]
+    decide
+
+/-- the table holds exactly the declared constants, in strictly ascending order of value -/
+theorem C04_sorted (i : Input) (h : WF i = true) :
+    (tables i).Perm i.decl ∧ (valuesT (tables i)).Pairwise (· < ·) := by
+  refine ⟨tables_perm h, ?_⟩
+  have f := WF.facts h
+  have hs : (valuesT (tables i)).Pairwise (· ≤ ·) := by
+    rw [tables_eq h]; unfold valuesT specSorted
+    exact List.pairwise_map.mpr (sortBy_sorted _ _)
+  have hn : (valuesT (tables i)).Nodup := ((tables_perm h).map _).nodup_iff.mpr f.ndVals
+  exact (hs.and hn).imp (fun ⟨a, b⟩ => by omega)
+
+/-- Values() is the specification's ascending list -/
+theorem C04_values (i : Input) (h : WF i = true) : valuesT (tables i) = specValues i.decl := by
+  rw [tables_eq h]; rfl
+
+theorem C04_strings (i : Input) (h : WF i = true) : stringsT i.T (tables i) = specStrings i.T i.decl := by
+  rw [tables_eq h]; rfl
+
+/-- Values() and Strings() are index-aligned: position j holds the value and the trimmed name of
+    one and the same constant (for any table) -/
+theorem C04_aligned (T : Name) (cs : List Const) :
+    (valuesT cs).length = (stringsT T cs).length ∧
+    ∀ (j : Nat) (c : Const), cs[j]? = some c →
+      (valuesT cs)[j]? = some c.val ∧ (stringsT T cs)[j]? = some (trim T c.name) := by
+  refine ⟨by simp [valuesT, stringsT], ?_⟩
+  intro j c hj
+  simp [valuesT, stringsT, hj]
+
+/-- IsValid() is true exactly for the declared values -/
+theorem C04_isvalid_iff (i : Input) (h : WF i = true) (x : Int) :
+    isValid i.T (tables i) x = true ↔ ∃ c ∈ i.decl, c.val = x := by
+  unfold isValid
+  rw [lookup_stringMap, Option.isSome_map, List.find?_isSome]
+  constructor
+  · rintro ⟨c, hc, hx⟩
+    exact ⟨c, (tables_perm h).mem_iff.mp hc, by simpa using hx⟩
+  · rintro ⟨c, hc, hx⟩
+    exact ⟨c, (tables_perm h).mem_iff.mpr hc, by simpa using hx⟩
+
+theorem C04_isvalid (i : Input) (h : WF i = true) (x : Int) :
+    isValid i.T (tables i) x = specValid i.decl x := by
+  rw [Bool.eq_iff_iff, C04_isvalid_iff i h x]
+  simp [specValid]
+
+/-- String(), for EVERY integer x: the trimmed name of the declared constant with that value,
+    otherwise the decimal form (no -bit) -/
+theorem C04_string (i : Input) (h : WF i = true) (x : Int) :
+    stringOf i.T (tables i) x = specString i.T i.decl x := by
+  have f := WF.facts h
+  unfold stringOf specString
+  rw [lookup_stringMap, find?_key_perm (·.val) (tables_perm h) (((tables_perm h).map _).nodup_iff.mpr f.ndVals) x]
+  cases i.decl.find? (fun c => c.val = x) with
+  | none => simp
+  | some c => simp
+
+theorem C04_string_declared (i : Input) (h : WF i = true) (c : Const) (hc : c ∈ i.decl) :
+    stringOf i.T (tables i) c.val = .name (trim i.T c.name) := by
+  rw [C04_string i h]
+  unfold specString
+  rw [find?_key_unique (·.val) i.decl (WF.facts h).ndVals c hc]
+
+theorem C04_string_other (i : Input) (h : WF i = true) (x : Int) (hx : ∀ c ∈ i.decl, c.val ≠ x) :
+    stringOf i.T (tables i) x = .dec x := by
+  rw [C04_string i h]
+  unfold specString
+  have : i.decl.find? (fun c => c.val = x) = none := by
+    rw [List.find?_eq_none]; intro c hc; simpa using hx c hc
+  rw [this]
+
+/-- ValueMap() sends a string to the value of the declared constant so named (after trimming) -/
+theorem C04_valuemap (i : Input) (h : WF i = true) (s : Name) :
+    (valueMap i.T (tables i)).lookup s = specValueOf i.T i.decl s := by
+  have f := WF.facts h
+  unfold specValueOf
+  rw [lookup_valueMap, find?_key_perm (fun c => trim i.T c.name) (tables_perm h)
+    (((tables_perm h).map _).nodup_iff.mpr f.ndNames) s]
+
+/-- StringMap() sends a value to the trimmed name of the declared constant with that value -/
+theorem C04_stringmap (i : Input) (h : WF i = true) (v : Int) :
+    (stringMap i.T (tables i)).lookup v = specNameOf i.T i.decl v := by
+  have f := WF.facts h
+  unfold specNameOf
+  rw [lookup_stringMap, find?_key_perm (·.val) (tables_perm h) (((tables_perm h).map _).nodup_iff.mpr f.ndVals) v]
+
+/-- the two maps are inverse to each other, and both are the declaration -/
+theorem C04_maps_inverse (i : Input) (h : WF i = true) (s : Name) (v : Int) :
+    ((valueMap i.T (tables i)).lookup s = some v ↔ (stringMap i.T (tables i)).lookup v = some s) ∧
+    ((valueMap i.T (tables i)).lookup s = some v ↔ ∃ c ∈ i.decl, trim i.T c.name = s ∧ c.val = v) := by
+  have f := WF.facts h
+  rw [C04_valuemap i h, C04_stringmap i h]
+  unfold specValueOf specNameOf
+  have h1 : (i.decl.find? (fun c => trim i.T c.name = s)).map (·.val) = some v ↔
+      ∃ c ∈ i.decl, trim i.T c.name = s ∧ c.val = v := by
+    rw [Option.map_eq_some_iff]
+    constructor
+    · rintro ⟨c, hc, hv⟩
+      have := (find?_some_iff_mem (fun c => trim i.T c.name) i.decl f.ndNames s c).mp hc
+      exact ⟨c, this.1, this.2, hv⟩
+    · rintro ⟨c, hc, hs, hv⟩
+      exact ⟨c, (find?_some_iff_mem (fun c => trim i.T c.name) i.decl f.ndNames s c).mpr ⟨hc, hs⟩, hv⟩
+  have h2 : (i.decl.find? (fun c => c.val = v)).map (fun c => trim i.T c.name) = some s ↔
+      ∃ c ∈ i.decl, trim i.T c.name = s ∧ c.val = v := by
+    rw [Option.map_eq_some_iff]
+    constructor
+    · rintro ⟨c, hc, hs⟩
+      have := (find?_some_iff_mem (·.val) i.decl f.ndVals v c).mp hc
+      exact ⟨c, this.1, hs, this.2⟩
+    · rintro ⟨c, hc, hs, hv⟩
+      exact ⟨c, (find?_some_iff_mem (·.val) i.decl f.ndVals v c).mpr ⟨hc, hv⟩, hs⟩
+  exact ⟨h1.trans h2.symm, h1⟩
+
+/-- the stale guard `_ = x[Name-value]` compiles iff every declared constant still has the value
+    it had when the file was generated -/
+theorem C04_guard (i : Input) (h : WF i = true) (cur : Name → Option Int) :
+    guardOK (tables i) cur = true ↔ ∀ c ∈ i.decl, cur c.name = some c.val := by
+  have f := WF.facts h
+  unfold guardOK
+  rw [List.all_eq_true]
+  constructor
+  · intro hg c hc
+    have := hg c ((tables_perm h).mem_iff.mpr hc)
+    rw [printed_small (f.small c hc).1 (f.small c hc).2] at this
+    cases hcur : cur c.name with
+    | none => simp [hcur] at this
+    | some v => simp [hcur] at this; congr 1; omega
+  · intro hg c hc
+    have hc' := (tables_perm h).mem_iff.mp hc
+    rw [printed_small (f.small c hc').1 (f.small c hc').2, hg c hc']
+    simp
+
+theorem C04_guard_spec (i : Input) (h : WF i = true) (cur : Name → Option Int) :
+    guardOK (tables i) cur = specGuard i.decl cur := by
+  rw [Bool.eq_iff_iff, C04_guard i h cur]
+  simp [specGuard]
+
+/-! ### finding regions: concrete inputs inside the property's quantifier on which the model (and the
+code) differs from the specification -/
+
+def cColor : Name := ['C', 'o', 'l', 'o', 'r']
+def cRed : Name := ['C', 'o', 'l', 'o', 'r', 'R', 'e', 'd']
+def cGreen : Name := ['C', 'o', 'l', 'o', 'r', 'G', 'r', 'e', 'e', 'n']
+
+/-- `type Color int8; const ( ColorRed Color = iota - 1; ColorGreen )` -/
+def negWitness : Input :=
+  { T := cColor, kind := ⟨true, 8, false⟩,
+    blocks := [[{ names := [cRed], ty := some cColor, hasVals := true, exprTy := none, vals := [-1] },
+                { names := [cGreen], ty := none, hasVals := false, exprTy := none, vals := [0] }]] }
+
+/-- a negative constant: the specification has a table, the run fails (`x[ColorRed--1]`) -/
+theorem C04_F_negative_witness :
+    F_negative negWitness = true ∧ gen negWitness.T negWitness.blocks = .formatError ∧
+    specValues negWitness.decl = [-1, 0] := by decide
+
+/-- were the guard printed correctly, the sort by the unsigned key would still put the negative
+    constant last (not ascending) -/
+theorem C04_F_negative_sort_witness :
+    valuesT (tables negWitness) = [0, -1] ∧ specValues negWitness.decl = [-1, 0] := by decide
+
+/-- `type U uint64; const ( UA U = 1; UB U = 1 << 63 )` -/
+def bigWitness : Input :=
+  { T := ['U'], kind := ⟨false, 64, false⟩,
+    blocks := [[{ names := [['U', 'A']], ty := some ['U'], hasVals := true, exprTy := none, vals := [1] },
+                { names := [['U', 'B']], ty := some ['U'], hasVals := true, exprTy := none, vals := [9223372036854775808] }]] }
+
+/-- a constant above MaxInt64: `valueof` prints it negative and the run fails the same way -/
+theorem C04_F_big_witness :
+    F_big bigWitness = true ∧ gen bigWitness.T bigWitness.blocks = .formatError ∧
+    printed 9223372036854775808 = -9223372036854775808 := by decide
+
+/-! ### non-vacuity: a concrete declaration in WF using carry-down, a placeholder, a reset by an
+untyped constant, two blocks and a prefix that is trimmed -/
+
+def wfExample : Input :=
+  { T := cColor, kind := ⟨false, 8, false⟩,
+    blocks := [[{ names := [cRed, ['_']], ty := some cColor, hasVals := true, exprTy := none, vals := [5, 6] },
+                { names := [cGreen, ['B']], ty := none, hasVals := false, exprTy := none, vals := [7, 8] },
+                { names := [['k']], ty := none, hasVals := true, exprTy := none, vals := [9] },
+                { names := [['m']], ty := none, hasVals := false, exprTy := none, vals := [9] }],
+               [{ names := [['Z']], ty := some cColor, hasVals := true, exprTy := none, vals := [0] }]] }
+
+example : WF wfExample = true ∧
+    valuesT (tables wfExample) = [0, 5, 7, 8] ∧
+    stringsT wfExample.T (tables wfExample) = [['Z'], ['R', 'e', 'd'], ['G', 'r', 'e', 'e', 'n'], ['B']] ∧
+    stringOf wfExample.T (tables wfExample) 7 = .name ['G', 'r', 'e', 'e', 'n'] ∧
+    stringOf wfExample.T (tables wfExample) 6 = .dec 6 ∧
+    guardOK (tables wfExample) (fun n => if n = cRed then some 6 else none) = false := by decide
+
 end ShootVerif.Enum
